@@ -371,6 +371,10 @@ def gen_domain(rng, max_depth=2, dim=None, dep=None, k=None, allow=("bool", "pri
             spec["matrix"] = [float(x) for x in R.reshape(-1)]
         if rng.random() < 0.6:
             spec["around"] = [float(x) for x in (center + rng.uniform(-1, 1, dim) * scale)]
+            if dep and rng.random() < 0.35:
+                # the pivot moves with the parameter (here possibly the only parameter dependent part of the rotation)
+                spec["around"] = {"a": spec["around"], "terms": [{"var": "t", "col": 0, "kind": "lin",
+                                                                   "coef": [float(x) for x in rng.uniform(-1, 1, dim) * scale]}]}
     elif kind == "product":
         # A(x; s) * B(s): first factor may depend on the second's coordinates
         bspec = {"prim": "interval", "var": "s", "lo": float(rng.uniform(-1, 0)), "hi": float(rng.uniform(0.5, 2))}
